@@ -13,6 +13,11 @@ claimed = {
    note="Trusted: getty's receive loop (environment named by the property), gxbytes.Buffer/byteio models, GetCodecManager singleton (trusted contract), 'no codec registered under type code 0' and len(data) < 2^31 (requires). The induction over the byte stream (any chunking yields the same messages) is a pencil step over need-more/complete/progress + purity of Read. Not proved: encodeHeapMap's per-entry bytes and the n-entry lifting of the head-map round trip (only the single-entry case is); a head map that is inconsistent with HeadLength is not diagnosed.",
    ref="DESIGN.md §3 C13",
    technique="contract-based deductive verification: VCs from go/ssa by symbolic execution with loop invariants/variants, contracts in //@ comment files, discharged by cvc5/z3"),
+ "C15": dict(
+   text="Deductive proof over the real SSA of both phase-two processors, the resource-manager registry lookup, SendAsyncResponse and the client handler's dispatch, for every request and every (status, error) the resource manager may return: the manager called is the one registered for the request's branch type, exactly once, with the request's xid / branch id / resource id / application data; if it returns no error exactly one response is handed to the transport with the request's message id, type Response, the request's xid and branch id, precisely the returned status and result code Success; if it fails no response is sent and Process returns the error; Process returns nil only if the response was sent successfully; no heap cell that existed before the call is written (independence of requests = frame condition).",
+   note="Trusted: the ResourceManager implementations (any status/error; call recorded in ghost state), GettyRemoting.SendAsync as transport boundary (trusted contract recording the frame; its body is C14's), the three sync.Once singletons (trusted contracts), sync.Map modelled as a sequential map. Interleavings of concurrent requests are not explored: independence is the proved frame condition plus sync.Map atomicity. Behaviour for a branch type with no registered manager (panic in GetResourceManager) is outside the property and excluded by a requires.",
+   ref="DESIGN.md §3 C15",
+   technique="contract-based deductive verification: VCs from go/ssa by symbolic execution, ghost call records for routing/multiplicity, contracts in //@ comment files, discharged by cvc5/z3"),
 }
 na = {
  "C18": "relates generated SQL text executed by MySQL to the rows another SQL text changed; needs a formal semantics of MySQL DML and of the arana-db parser AST, which no contract within reach of a self-written VC generator can express (DESIGN.md §4)",
